@@ -42,7 +42,65 @@ CHECKS["C01"] = dict(
     note=TB + "; harness/narrow.py parts() (collider spec -> shape expression) is trusted; witnesses are untrusted",
 )
 
-NA_DEFAULT = "check not built yet (work in progress; DESIGN.md section 5 has the plan)"
+INTERIM = " (Props file being completed in this session: the listed theorems are those already exported there; further proved lemmas live in Proofs/*.v)"
+CHECKS["C03"] = dict(
+    category="proof",
+    text=("Theorems over the reals about the Gallina transliteration Model/Support.v of every support mapping (is_support: membership and "
+          "extremality, all directions incl. zero components) exported in Props/C03.v; mesh hill climbing under the explicit hypothesis "
+          "LocalMaxGlobal on the input mesh (partial). Tie to /repo: the binary64 instance of the same model is compared with "
+          "collider.support_function / first_vertex / center on generated colliders (10 kinds, Margin, lattice and sign-boundary directions, "
+          "mesh query histories vs fresh objects) at 1e-9 L, and an exact rational oracle judges the implementation's answers." + INTERIM),
+    design_ref="DESIGN.md section 5, C03",
+    technique="Coq proof over R about a hand-written model + model/implementation correspondence by vm_compute (PrimFloat) + exact rational oracle",
+    note=TB + "; the per-input property oracle is an exact Python Fraction oracle (not Coq-extracted); IEEE rounding is measured, not modelled",
+)
+CHECKS["C04"] = dict(
+    category="proof",
+    text=("Theorems over the reals about Model/Aabb.v (transliteration of containment.*_aabb and the aabb() wrappers): enclosure and per-axis "
+          "tightness for orthonormal poses, and the corollary that intersecting sets have overlapping AABBs (Props/C04.v). ellipsoid_aabb for "
+          "general rotations and RigidBody.aabb() in the world frame are refuted in Coq and recorded as known findings F9 / RB-AABB. Tie to "
+          "/repo: binary64 instance of the model vs collider.aabb()/containment functions on generated colliders (six bounds at 1e-9 L) and "
+          "an exact rational oracle (support values along +-e_k)." + INTERIM),
+    design_ref="DESIGN.md section 5, C04",
+    technique="Coq proof over R about a hand-written model + model/implementation correspondence by vm_compute (PrimFloat) + exact rational oracle",
+    note=TB + "; the per-input property oracle is an exact Python Fraction oracle; RigidBody.aabb() modelled as merge of per-tetrahedron boxes (C05 gives root box = merge)",
+)
+CHECKS["C13"] = dict(
+    category="proof",
+    text=("Theorems over the reals about Model/Contain.v (the eight points_in_* predicates per point): predicate = true <-> point in the closed "
+          "shape, for orthonormal poses (Props/C13.v). Tie to /repo: binary64 instance of the model vs the implementation on generated shapes "
+          "and point batches (features, boundary pushes at +-k 1e-9 L), booleans compared wherever an exact rational oracle certifies the "
+          "1e-9 L margin; cross-agreement with point_to_<shape> distances and support functions is checked per input." + INTERIM),
+    design_ref="DESIGN.md section 5, C13",
+    technique="Coq proof over R about a hand-written model + model/implementation correspondence by vm_compute (PrimFloat) + exact rational oracle",
+    note=TB + "; convex meshes: faces from scipy ConvexHull verified exactly as supporting half-spaces; flat disk: only the False side is judged",
+)
+CHECKS["C14"] = dict(
+    category="proof",
+    text=("State-machine proof (Props/C14.v, closed under the global context): for every collider class incl. nested Margin wrappers, every "
+          "construction pose and every finite history of update_pose / support / aabb / center / first_vertex / collider2origin operations with "
+          "C-contiguous poses (fresh or item of a stack), the surviving object holds the same attribute data as one constructed at the last pose, "
+          "all queries return equal results and none raises (no_type_error); the pre-fix Disk/Ellipse configuration is refuted. The numba "
+          "signatures, update_pose bodies and call-site wrappers are re-extracted from /repo's sources on every run (Gen/CollidersTables.v) so the "
+          "theorems are re-checked against the current code; numpy view/layout and numba dispatch rules are modelled and validated per run against "
+          "arr.flags and raised exception types on generated histories, and observables are compared bitwise with fresh objects."),
+    design_ref="DESIGN.md section 5, C14",
+    technique="Coq proof by induction over operation histories on a model regenerated from the source (ast reader) + history correspondence",
+    note=TB + "; harness/tables_c14.py (ast reader) is trusted; numerical kernels are abstract functions of attribute data in the model",
+)
+CHECKS["C17"] = dict(
+    category="proof",
+    text=("Coq-proven certificate checker mesh_cert (Checker/TetMesh.v: all signed volumes of one sign and non-zero, exact sum) with soundness "
+          "over the reals (Props/C17.v), evaluated on every mesh the factories return; literal vertex/tetrahedron tables are re-extracted from the "
+          "source on every run (Gen/TetTables.v) and the binary64 run of Model/TetMesh.v is compared bit-exactly with the implementation; an exact "
+          "rational oracle verifies hull volume (scipy facets as untrusted witness), vertices inside the analytic shape, potentials and the mesh "
+          "helpers. Universal theorems over all sizes for box/cube/cylinder are in progress (partial)."),
+    design_ref="DESIGN.md section 5, C17",
+    technique="Coq-proven mesh certificate checker + tables regenerated from source + bit-exact model correspondence + exact rational oracle",
+    note=TB + "; harness/tables_c17.py (ast reader) and harness/c17_oracle.py are trusted; scipy ConvexHull facets are an untrusted witness verified exactly",
+)
+
+NA_DEFAULT = "no check registered yet: machinery under construction in this session (DESIGN.md section 5 has the plan); not claimed"
 NA = {}
 
 
